@@ -39,6 +39,8 @@ pub struct Prepared {
     /// judged after the execution ended, however it ended (completed, panic, deadlock): returns
     /// complaints about what the execution left behind (e.g. on the simulated disk)
     pub post: Option<Arc<dyn Fn(&Outcome, &BodyReport) -> (Vec<String>, BTreeMap<String, u64>) + Send + Sync>>,
+    /// a very heavy work (hundreds of MiB, GiB) runs under at most this many schedules
+    pub max_scheds: Option<u64>,
 }
 
 pub trait TCheck: Sync {
@@ -258,7 +260,7 @@ pub fn worker_main(check: &dyn TCheck, args: &Args, w: usize, n: usize) -> ! {
         }
         let prep = prepare_work(check, args.seed, args.tier, work, &scratch.path);
         println!("{}", json!({"t":"work","work":work,"desc":prep.desc,"knobs":prep.knobs.iter().map(|(k,v)| json!([k,v])).collect::<Vec<_>>()}));
-        for s in 0..scheds {
+        for s in 0..scheds.min(prep.max_scheds.unwrap_or(u64::MAX)) {
             let sched_seed = simcore::prng::hash_label(args.seed, &format!("{}-sched", check.id()), work * 100_000 + s);
             let strategy = strategy_for(work + s);
             // announced before running: if this process dies in the execution (memory error), the
